@@ -91,7 +91,7 @@ theorem src_countMeta_skeleton_expected : src_countMeta_skeleton = "{ if newRec.
 
 theorem src_string_addValues_expected : src_string_addValues = "{ m.counts += int64(col.Length() - col.NullN()) }" := by rfl
 
-theorem src_bool_addValues_expected : src_bool_addValues = "{ values := col.Int8Values() valLen := len(values) for i := 0; i < valLen; i++ { v := values[i] if m.minV > v { m.minV = v m.minTime = times[i] } if m.maxV < v { m.maxV = v m.maxTime = times[i] } } m.counts += int64(valLen) }" := by rfl
+theorem src_bool_addValues_expected : src_bool_addValues = "{ values := col.Int8Values() valLen := len(values) for i, j := 0, 0; i < col.Len && j < valLen; i++ { if col.NilCount > 0 && col.IsNil(i) { continue } v := values[j] j++ if m.minV > v { m.minV = v m.minTime = times[i] } if m.maxV < v { m.maxV = v m.maxTime = times[i] } } m.counts += int64(valLen) }" := by rfl
 
 theorem src_int_merge_expected : src_int_merge = "{ m.addMin(float64(other.values[minIndex]), other.values[minTIndex]) m.addMax(float64(other.values[maxIndex]), other.values[maxTIndex]) m.values[sumIndex] += other.values[sumIndex] m.values[countIndex] += other.values[countIndex] }" := by rfl
 
